@@ -366,7 +366,12 @@ Fixpoint convert_cellref (fuel : nat) (cells : dict cell) (matching : dict (list
               | Err e => Err e
               | Ok (Some id, s') =>
                   Ok (Some id, mkSt (cnt s') (vols s') (scache s') (dset c id (ccache s')))
-              | Ok (None, s') => Ok (None, s')
+              | Ok (None, s') =>
+                  (* the referenced cell is empty: a patently empty stand-in volume
+                     (PLUS u0 MINUS u0), cached like any other reference *)
+                  let id := cnt s' + 1 in
+                  Ok (Some id, mkSt id (dset id (mkVol [u0] [u0] None (snd cl) true) (vols s'))
+                                    (scache s') (dset c id (ccache s')))
               end
           end
       end
@@ -490,14 +495,30 @@ Definition remove_unused (d : dict vol) : dict vol :=
 Definition written (skipped : list Z) (d : dict vol) : dict vol :=
   filter (fun kv => negb (mem (fst kv) skipped)) d.
 
+(* ---- convertMCNPGeometry after construct_volume_t4: the de-duplication
+   renumbers the volumes AND the helper planes, then the two pruning passes ---- *)
+Definition prune (u0 u1 : Z) (rn : option (dict Z)) (d : dict vol) : res (dict vol) :=
+  match rn with
+  | None => Ok (remove_unused (remove_empty u0 u1 d))
+  | Some r =>
+      match renumber r d with
+      | Err e => Err e
+      | Ok d' =>
+          match lookup u0 r, lookup u1 r with
+          | Some v0, Some v1 => Ok (remove_unused (remove_empty v0 v1 d'))
+          | _, _ => Err EKey
+          end
+      end
+  end.
+
 (* ---- whole Boolean pipeline ---- *)
 Definition pipeline (fuel : nat) (cells : dict cell) (matching : dict (list Z)) (u0 u1 : Z)
            (todo : list Z) (cnt0 : Z) (rn : option (dict Z)) : res (st * dict vol) :=
   match convert_cells fuel cells matching u0 u1 todo (mkSt cnt0 [] [] []) with
   | Err e => Err e
   | Ok s =>
-      match (match rn with None => Ok (vols s) | Some r => renumber r (vols s) end) with
+      match prune u0 u1 rn (vols s) with
       | Err e => Err e
-      | Ok d => Ok (s, remove_unused (remove_empty u0 u1 d))
+      | Ok d => Ok (s, d)
       end
   end.
